@@ -15,8 +15,11 @@ CONSTANTS Contracts <- McContracts
  DepthLimit = 1024
  DevS = FALSE
  DevG = TRUE
+ JumpDests = {}
+ ShapeAt <- McShapeAt
+ DevJ = FALSE
  DevC = FALSE
 VIEW ViewNoHist
 INVARIANTS StaticIsNoop GasWithinSupplied DepthBound NoCrash JournalMarksOrdered CodeOnlyByCreation
-PROPERTIES FailedFrameIsNoop OkKeepsEffects GasNeverGrows CollisionIsNoop
+PROPERTIES JumpIsFrameLocal FailedFrameIsNoop OkKeepsEffects GasNeverGrows CollisionIsNoop
 CHECK_DEADLOCK FALSE
